@@ -24,6 +24,7 @@ from cirq.ops import (
     common_gates,
     dense_pauli_string as dps,
     gate_operation,
+    identity,
     op_tree,
     pauli_gates,
     pauli_string as ps,
@@ -363,9 +364,13 @@ class PauliStringPhasorGate(raw_types.Gate):
     def _decompose_(self, qubits: Sequence[cirq.Qid]) -> Iterator[cirq.OP_TREE]:
         if len(self.dense_pauli_string) <= 0:
             return
-        any_qubit = qubits[0]
+        # Qubits acted on via identity (padding) must not take part in the parity computation.
+        acted_qubits = [
+            q for q, p in zip(qubits, self.dense_pauli_string) if p != identity.I
+        ] or list(qubits)
+        any_qubit = acted_qubits[0]
         to_z_ops = op_tree.freeze_op_tree(self._to_z_basis_ops(qubits))
-        xor_decomp = tuple(xor_nonlocal_decompose(qubits, any_qubit))
+        xor_decomp = tuple(xor_nonlocal_decompose(acted_qubits, any_qubit))
         yield to_z_ops
         yield xor_decomp
 
